@@ -323,6 +323,7 @@ class NFA:
         self.cs = []  # position -> CS
         self.follow = []  # position -> set of positions
         self.label = []
+        self.relaxed = False
         nullable, first, last = self._build(node)
         self.nullable = nullable
         self.first = frozenset(first)
@@ -342,7 +343,12 @@ class NFA:
             # strip_anchors(); word boundaries do not occur in this code base)
             return True, set(), set()
         if k == 'look':
-            raise AnalysisError('look-around assertions are not supported by the automaton builder')
+            # Relaxation: the assertion is dropped, so the automaton accepts a
+            # superset and has a superset of runs.  Sound for "no exponential
+            # ambiguity" verdicts only; callers must not report findings made
+            # on a relaxed automaton (self.relaxed is set).
+            self.relaxed = True
+            return True, set(), set()
         if k == 'cs':
             p = self._new(n[1])
             return False, {p}, {p}
